@@ -218,7 +218,7 @@ func concExec(t *testing.T, p *Plan, co concOpts) *concResult {
 	body := func() {
 		sim = sched.New(sched.Config{
 			Seed: p.Cfg.SchedSeed, Tape: p.Tape, Sticky: p.Cfg.Sticky, TickProb: p.Cfg.TickProb,
-			FSYields: p.Cfg.FSYields, MaxSteps: 400000, LogEvents: os.Getenv("VERIF_EVLOG") != "",
+			FSYields: p.Cfg.FSYields, UnlockYields: p.Cfg.UnlockYields, MaxSteps: 400000, LogEvents: os.Getenv("VERIF_EVLOG") != "",
 		}, synctest.Wait)
 		cr.sim = sim
 		mainTask = sim.Go("main", func() {
